@@ -324,6 +324,31 @@ pub fn spec(check: &str, tier: &str) -> Option<CheckSpec> {
                 abort_is_violation: true,
             })
         }
+        "C18" => {
+            let progs = fam::spin_programs(tier);
+            Some(CheckSpec {
+                id: "C18",
+                level: "model_checking",
+                rule: "every program of the SPIN family: 1-2 writer threads over 1-2 locations, one waiter thread with exactly one yield loop (every ordering, optional access before/after the loop) awaiting each stored value or a value nobody stores; the reference enumerates RC11 executions with the loop as one read constrained to the awaited value; non-trivial = the loop can stay unsatisfied or >= 2 outcomes",
+                assumptions: vec!["deleting the failed loop iterations from a consistent execution leaves a consistent execution (DESIGN.md C18)", "default max_branches (1000) bounds every iteration"],
+                wall_cap: wall,
+                jobs: jobs("C18", tier, progs, &cfg),
+                self_checks: vec![litmus_selfcheck()],
+                completed_level: format!("SPIN {}", tier),
+                abort_is_violation: true,
+            })
+        }
+        "C20" => Some(CheckSpec {
+            id: "C20",
+            level: "model_checking",
+            rule: "every poll script (register-check, check-register, check-register-recheck, check only) x registration through a mutex-protected slot or AtomicWaker x every waker-thread script up to the length bound over {set flag, wake, wake_by_ref, clone, wake the clone, drop the clone} with 1-2 waker threads; non-trivial = the reference can lose the wake-up or >= 2 waker steps",
+            assumptions: vec!["atomic-step specification of the waker slot and of block_on's notification flag (one spurious credit, spurious returns are not progress)"],
+            wall_cap: wall,
+            jobs: crate::fut::jobs(tier),
+            self_checks: vec![],
+            completed_level: if tier == "quick" { "waker scripts <=2 steps, two wakers <=2 steps in total".to_string() } else { "waker scripts <=3 steps, two wakers <=4 steps in total".to_string() },
+            abort_is_violation: true,
+        }),
         "C19" => {
             let mut progs = vec![];
             let level;
